@@ -274,6 +274,7 @@ func (raceEngine) Run(ctx *fw.Ctx, cs any) {
 			Poll:  &PollSpec{Until: hex.EncodeToString(versionAddr(false, finalVer, 0)), MaxPolls: 120, IntervalMs: 20, Hold: true}})
 		reqs = append(reqs, nil)
 	}
+	job.LogLevel = caseLogLevel(c.Seed)
 	out := RunChain(job, ctx.Scratch, 100*time.Second)
 	desc := fmt.Sprintf("dual-stack full chains, range of %d, %s bursts %v", c.RangeN, c.Kind, c.Bursts)
 	if out.SetupErr != "" {
